@@ -13,6 +13,10 @@ CHECKS = {
    text='Partial (assembly, kernel formula, Gauss exactness; the quadrature-accuracy clause is outside). The real matrix fill runs on concrete catalogue geometries (2x/3x segment counts, free space and ground, junctions of every end combination, tapered wire, arc, helix, leaning grounded wires) with every numerical integral replaced by an unknown complex number identified only by what the integral depends on; for every pair of pulses at least 2.5 segments apart z3 decides for ALL values of those unknowns (given additivity of an integral over its halves) that the entry is the published MININEC-3 combination written from pulse geometry alone, incl. the image term and its omission for pulses on the ground plane. A structural difference is replayed on the real code against adaptive quadrature with the 1e-4 tolerance of the property.',
    design='DESIGN.md 3 (C02), 9',
    technique='symbolic execution of the real matrix fill with the numerical integration abstracted to uninterpreted integral-atoms (linear forms over atoms, z3 LRA decides equality with the reference for all atom values); Gauss exactness in LRA on symbolic polynomial coefficients; kernel formula by congruence over uninterpreted exp/sqrt; candidates replayed numerically on the untouched package'),
+ 'C03': dict(
+   text='Partial (matrix, excitation, load and far-field algebra; the conditioning clause is outside). A catalogue antenna over ideal ground and the free-space pair of antenna + mirror image (built through the public API, grounded wires continued into their image) are filled over ONE table of unknown integrals; pulses are matched by position and flow direction. z3 decides for ALL values of the unknowns that every entry of the ground matrix is the block sum of the free-space matrix (image term, its omission on the plane), for all complex V and Z_L that sources/loads on the plane correspond to 2V / 2Z_L (half the impedance), and for all pulse currents that the far field over ground is that of antenna + image (+3.0103 dB with P_F = 2P). Structural differences are replayed by solving both models on the real code with the tolerance of the property.',
+   design='DESIGN.md 3 (C03), 9',
+   technique='symbolic execution of the real matrix fill / rhs / load / far-field code for two models over shared uninterpreted integral-atoms; z3 (LRA, polynomial identities) decides the block identities for all atom values, voltages, loads and currents; candidates replayed numerically on the untouched package'),
  'C07': dict(
    text='For all complex source voltages, all factors a, all frequencies and all non-singular system matrices up to 4x4 (larger: the concrete matrix of a catalogue member), homogeneity, superposition and the V/I, Re(VI*)/2 source data are decided by z3 as identities; bounded by the listed geometries and source placements.',
    design='DESIGN.md 3 (C07)'),
